@@ -287,12 +287,16 @@ def _tsc_particles(n1d, p, o, Q, cell):
     return pos
 
 
-def replay_tsc(n1d, p, o, Q, max_schedules=40):
+def replay_tsc(n1d, p, o, Q, max_schedules=40, drop=()):
+    """drop: stripes left without particles (the pass structure must not depend on which stripes are occupied)"""
     import warnings
     from abacusnbody.analysis import tsc
     cell = 4.0
     box = n1d * cell
     pos = _tsc_particles(n1d, p, o, Q, cell)
+    if drop:
+        stripe = np.minimum(np.floor(pos[:, 0] * p / box).astype(int), p - 1)
+        pos = pos[~np.isin(stripe, list(drop))]
     w = (1.0 + (np.arange(len(pos)) % 3)).astype(np.float64)
     with warnings.catch_warnings():
         warnings.simplefilter('ignore')
